@@ -6,7 +6,11 @@
   `OtRound` — to the same variation model as gvar and store the ties-even rounded deltas in an
   ItemVariationStore; the font value at a location is `default + Σ scalar·delta` = `interpolate`.
   `vals[j] = (otRound a_j : Rat)` where `a_j` is the source value at `M.locations[j]`.
-  The e2e stream `c04e2e` evaluates hmtx+HVAR / vmtx+VVAR / MVAR of real fonts at every master with the
+  The bookkeeping around the model — one cached variation model per distinct set of glyph locations, the dense leading
+  `.notdef`, "no deltas" for glyphs drawn at the default only — is `FontcModel/Metric.lean` (`AdvanceDeltas`); the
+  theorems `advance_cache_transparent` and `advances_reproduced_for_every_glyph` say that the cache never makes a glyph
+  use anything but its own model on its own values, for every glyph order and every mix of location sets.
+  The e2e streams `c04e2e` / `c04adv` evaluate hmtx+HVAR / vmtx+VVAR / MVAR of real fonts at every master with the
   independent spec evaluator (FontcModel/Ivs.lean).
 -/
 import FontcModel.VarModel
@@ -14,6 +18,8 @@ import FontcProofs.Rounding
 import FontcProofs.VarModelAlg
 import FontcProofs.VarModelTri
 import FontcProps.C07
+import FontcModel.Metric
+import FontcProofs.Metric
 
 namespace Fontc.C04
 open Fontc Fontc.VarModel
@@ -59,5 +65,69 @@ theorem default_metric_exact (n : Nat) (locs : List Loc)
       (List.replicate n 0) = (otRound a₀ : Rat) := by
   apply C07.default_exact_int n locs hlen hnd hz M hM .tiesEven _ (by simpa using hsrc)
   simp [ha]
+
+/-! ### the per-glyph bookkeeping of HVAR / VVAR (`AdvanceDeltas`, fontbe/src/metric_variations.rs) -/
+
+open Fontc.Metric in
+/-- **The model cache is transparent.** Walking any glyph order from a state whose cache is sound (`State.init` is,
+    `init_sound`), the entry pushed for glyph `i` is `specOf` of that glyph: its own model (`Model.new` of its own
+    location list) applied to its own rounded advances — a function of the glyph, of "is it the first glyph" and of
+    the font's glyph locations only. No glyph ever receives deltas computed for another glyph's location set. -/
+theorem advance_cache_transparent (s : State) (gs : List GlyphSrc) (h : s.Inv) :
+    (s.addAll gs).deltas =
+      s.deltas ++ gs.zipIdx.map fun (g, i) => specOf s.n s.glyphLocs (s.deltas.length + i == 0) g :=
+  addAll_deltas s gs h
+
+open Fontc.Metric in
+theorem init_sound (n : Nat) (globalLocs glyphLocs : List Loc) : (State.init n globalLocs glyphLocs).Inv :=
+  init_inv n globalLocs glyphLocs
+
+open Fontc.Metric in
+/-- **Every glyph, sparse or not.** After the whole glyph order has been walked, for every glyph that has at least
+    two masters (pairwise different locations of `n` coordinates) and every one of *its* masters `(loc, a)`:
+    hmtx + HVAR (vmtx + VVAR) at `loc` is within 1/2 of the rounded advance `otRound a`, hence within 1 unit of `a`. -/
+theorem advances_reproduced_for_every_glyph (n : Nat) (globalLocs glyphLocs : List Loc) (gs : List GlyphSrc)
+    (i : Nat) (g : GlyphSrc) (hg : gs[i]? = some g)
+    (hmany : 2 ≤ g.masters.length)
+    (hlen : ∀ p ∈ g.masters, p.1.length = n) (hnd : (g.masters.map (·.1)).Pairwise (· ≠ ·))
+    (loc : Loc) (a : Rat) (hmem : (loc, a) ∈ g.masters) :
+    ∃ e, ((State.init n globalLocs glyphLocs).addAll gs).deltas[i]? = some (some e) ∧
+      ratAbs (e.valueAt loc - (otRound a : Rat)) ≤ 1/2 ∧ ratAbs (e.valueAt loc - a) ≤ 1 := by
+  have hall := addAll_deltas (State.init n globalLocs glyphLocs) gs (init_inv n globalLocs glyphLocs)
+  have heff : ∀ s : State, effectiveMasters s g = some g.masters := by
+    intro s
+    unfold effectiveMasters
+    match hm : g.masters with
+    | [] => simp [hm] at hmany
+    | [_] => simp [hm] at hmany
+    | _ :: _ :: _ => rfl
+  refine ⟨specEntry n g.masters, ?_, ?_, ?_⟩
+  · rw [hall]
+    simp only [State.init, List.nil_append, List.length_nil, Nat.zero_add, List.getElem?_map, List.getElem?_zipIdx, hg,
+      Option.map_some]
+    simp [specOf, heff]
+  · exact specEntry_master_reproduced n g.masters hlen hnd loc a hmem
+  · have h1 := specEntry_master_reproduced n g.masters hlen hnd loc a hmem
+    have h2 := otRound_abs_le a
+    have a1 := (ratAbs_le_iff _ _).1 h1
+    have a2 := (ratAbs_le_iff _ _).1 h2
+    apply (ratAbs_le_iff _ _).2
+    constructor <;> grind
+
+/-! non-vacuity: glyph order `.notdef, A, T` over wght; the global masters are at 0 and 1, `A` has an extra master at
+    1/3 and `T` one at 2/3 with the *same* advances 580 / 650 / 700 at their own masters (the input on which a cache
+    keyed by the values alone hands `T` the deltas of `A`) -/
+
+open Fontc.Metric in
+def exGlyphs : List GlyphSrc :=
+  [⟨".notdef", [([0], 500)]⟩,
+   ⟨"A", [([0], 580), ([1/3], 650), ([1], 700)]⟩,
+   ⟨"T", [([0], 580), ([2/3], 650), ([1], 700)]⟩]
+
+open Fontc.Metric in
+example : ∃ e, ((State.init 1 [[0], [1]] [[0], [1/3], [2/3], [1]]).addAll exGlyphs).deltas[2]? = some (some e) ∧
+    ratAbs (e.valueAt [2/3] - (otRound (650 : Rat) : Rat)) ≤ 1/2 ∧ ratAbs (e.valueAt [2/3] - 650) ≤ 1 :=
+  advances_reproduced_for_every_glyph 1 [[0], [1]] [[0], [1/3], [2/3], [1]] exGlyphs 2
+    ⟨"T", [([0], 580), ([2/3], 650), ([1], 700)]⟩ rfl (by decide) (by simp) (by simp; grind) [2/3] 650 (by simp)
 
 end Fontc.C04
